@@ -920,6 +920,21 @@ def multiWriteResults (rs : Results) : List (WriteReq × Option Bytes) → Excep
         | .error e => .error e
         | .ok err => multiWriteResults (rs.set req.rid { tag := req.tag, value := .none, type := none, error := err }) rest
 
+/-- logix_driver.py `_send_requests`, multi branch: `response.error if response.command_status != SUCCESS else None` —
+    the embedded replies are parsed on their own (behind 46 zero bytes), so the encapsulation status of the packet that
+    carried them is looked at here -/
+def multiPacketError (outer : Resp) : Except Exn (Option TagErr) :=
+  if outer.p.commandStatus = some 0 then .ok none
+  -- no embedded replies = the multi-service parse itself failed: `response.error` is that recorded failure (nothing is
+  -- raised) and there is no request it could be attached to
+  else if (embeddedReplies outer.p.data).isEmpty then .ok (some (.reply .parseFailed))
+  else outer.error
+
+/-- every embedded reply that was paired with a request becomes a falsy Tag carrying the packet's error -/
+def multiFailAll (rs : Results) (err : TagErr) : List (Int × Name) → Results
+  | [] => rs
+  | (rid, tag) :: rest => multiFailAll (rs.set rid { tag := tag, value := .none, type := none, error := some err }) err rest
+
 /-- the read fragment loop cannot take more rounds than there are value bytes (+ slack) -/
 def FRAG_FUEL : Nat := 70000
 
@@ -959,12 +974,20 @@ def sendRequest {σ} (hook : ObjHook σ) (w : Cli.World σ) (rs : Results) : Req
       let (w1, r) := sendUnit hook w seq (Cl.multiMsg (reqs.map fun q => Cl.readMsg q.path q.elements))
       match r with
       | .error e => (w1, .error e)
-      | .ok raw => (w1, multiReadResults rs (reqs.zip (embeddedReplies (tagResp raw).p.data)))
+      | .ok raw =>
+          match multiPacketError (tagResp raw) with
+          | .error e => (w1, .error e)
+          | .ok (some err) => (w1, .ok (multiFailAll rs err ((reqs.zip (embeddedReplies (tagResp raw).p.data)).map fun q => ((q.1.rid : Int), q.1.tag))))
+          | .ok none => (w1, multiReadResults rs (reqs.zip (embeddedReplies (tagResp raw).p.data)))
   | .multiWrite seq reqs =>
       let (w1, r) := sendUnit hook w seq (Cl.multiMsg (reqs.map fun q => Cl.writeMsg q.path q.typeBytes q.elements q.value))
       match r with
       | .error e => (w1, .error e)
-      | .ok raw => (w1, multiWriteResults rs (reqs.zip (embeddedReplies (tagResp raw).p.data)))
+      | .ok raw =>
+          match multiPacketError (tagResp raw) with
+          | .error e => (w1, .error e)
+          | .ok (some err) => (w1, .ok (multiFailAll rs err ((reqs.zip (embeddedReplies (tagResp raw).p.data)).map fun q => ((q.1.rid : Int), q.1.tag))))
+          | .ok none => (w1, multiWriteResults rs (reqs.zip (embeddedReplies (tagResp raw).p.data)))
 
 /-- logix_driver.py:1342 `_send_requests(requests)` -/
 def sendRequests {σ} (hook : ObjHook σ) : Cli.World σ → Results → List Request → Cli.World σ × Except Exn Results
